@@ -1,1 +1,8 @@
-From WT Require Import Base.Wrap.
+(** * C19 — Text syntax round-trips. *)
+From WT Require Import Base.Wrap Base.ListX Model.Text Proofs.TextProofs.
+
+(** every 32-bit timestamp prints to a string that parses back to it (the calendar part is a
+    finite sweep over the 49 711 days, evaluated by vm_compute and lifted by all_from_spec) *)
+Theorem C19_timestamp_roundtrip t : 0 <= t < 2^32 -> parse_timestamp (timestamp_string t) = Some t.
+Proof. exact (timestamp_roundtrip t). Qed.
+Print Assumptions C19_timestamp_roundtrip.
